@@ -25,6 +25,8 @@ class ExprMixin(CallMixin):
 
     # ------------------------------------------------------------------ names
     def lookup(self, name, fr, node=None):
+        if fr.fi is None and fr_is_runtime_backend(fr.module, name):
+            return V("mod", fn=BACKENDMOD)
         if name in fr.env and not (name in fr.globals):
             return fr.env[name]
         ce = fr.closure_env
@@ -271,6 +273,7 @@ class ExprMixin(CallMixin):
         if fn is not None and not isinstance(fn, Closure):
             tag = fn[0]
             if tag == "backendmod":
+                self.backend_attrs.setdefault(attr, []).append((fr.module, fr.fi, n))
                 return V("func", fn=("backend", attr))
             if tag == "module":
                 name = fn[1]
